@@ -27,6 +27,14 @@ from .c19 import discover_factories, returned_closures
 FULL_GUARD_PARTS = ("len(indices) == n", "np.array_equal(indices, np.arange(n))")
 
 
+def _is_full_text(t: str) -> bool:
+    """`len(X) == n and np.array_equal(X, np.arange(n))` for one position array X (whatever it is called)."""
+    import re
+
+    m = re.search(r"len\((\w+)\) == (\w+)", t)
+    return bool(m) and f"np.array_equal({m.group(1)}, np.arange({m.group(2)}))" in t
+
+
 def check(prog, rep):
     factories = discover_factories(prog)
     rep.section(_alignment, prog, rep, factories)
@@ -101,11 +109,29 @@ def _is_full_guarded(cl, fi):
 
     def is_full_test(test):
         t = src(test)
-        if all(p in t for p in FULL_GUARD_PARTS):
+        if _is_full_text(t):
             return True
         if isinstance(test, ast.Name):
             vals = [src(v) for v in assigns.get(test.id, []) if isinstance(v, ast.AST)]
-            return bool(vals) and all(all(p in v for p in FULL_GUARD_PARTS) for v in vals)
+            if vals and all(_is_full_text(v) for v in vals):
+                return True
+            # `indices, is_full = helper(...)`: the flag is the matching element of the helper's returned tuple
+            for st in walk_local(fi.node):
+                if isinstance(st, ast.Assign) and isinstance(st.targets[0], ast.Tuple) and isinstance(st.value, ast.Call) and isinstance(st.value.func, ast.Name):
+                    names = [src(e) for e in st.targets[0].elts]
+                    if test.id not in names:
+                        continue
+                    pos = names.index(test.id)
+                    helpers = [n for n in ast.walk(fi.node) if isinstance(n, ast.FunctionDef) and n.name == st.value.func.id and n is not fi.node]
+                    for h in helpers:
+                        ha = local_assignments(h)
+                        oks = []
+                        for r in [x for x in walk_local(h) if isinstance(x, ast.Return) and isinstance(x.value, ast.Tuple) and len(x.value.elts) == len(names)]:
+                            e = r.value.elts[pos]
+                            texts = [src(e)] if not isinstance(e, ast.Name) else [src(v) for v in ha.get(e.id, []) if isinstance(v, ast.AST)]
+                            oks.append(bool(texts) and all(_is_full_text(t) for t in texts))
+                        if oks and all(oks):
+                            return True
         return False
 
     for test, pol in dominating_guards(cl) + preceding_exit_guards(cl):
@@ -306,8 +332,14 @@ def _jacobian_rows(prog, rep):
         # rows answered from a container need variable-container operands
         if cname not in ("BinaryOp", "VectorExpressionSum"):
             open_slots = [sl for sl, hs in slots.items() if any(h in ("VectorExpression", "MatrixExpression") for h in hs)]
-            unguarded = [sl for sl in open_slots if f"isinstance(self.{sl}, VectorVariable)" not in s and f"isinstance(self.{sl}, MatrixVariable)" not in s]
-            rep.ob("R03.4", f"{cname}.jacobian_row", not unguarded,
+            la = local_assignments(m.node)
+
+            def guarded_slot(sl):
+                names = {f"self.{sl}"} | {nm for nm, vals in la.items() if any(isinstance(v, ast.AST) and src(v) == f"self.{sl}" for v in vals)}
+                return any(isinstance(c, ast.Call) and dotted(c.func) == "isinstance" and len(c.args) == 2 and src(c.args[0]) in names and any(k in src(c.args[1]) for k in ("VectorVariable", "MatrixVariable")) for c in ast.walk(m.node))
+
+            unguarded = [sl for sl in open_slots if not guarded_slot(sl)]
+            rep.ob("R03.4", f"{cname}.jacobian_row", not unguarded, robust=False, msg=
                    "answers from variable containers only (by constructor signature or an isinstance guard returning None otherwise)" if not unguarded else
                    f"answers a row from the variables of .{unguarded[0]} without looking at its element expressions, although .{unguarded[0]} may be a MatrixExpression/VectorExpression (e.g. (X*Y).sum()): every entry comes out as if the elements were plain variables",
                    loc=loc, detail="container-operand")
@@ -598,9 +630,26 @@ def _fast_paths(prog, rep):
     # R03.6
     cg = prog.func("optyx.core.compiler:compile_gradient")
     for kind, fac in (("VectorPowerSum", "_compile_vectorized_power_gradient"), ("VectorUnarySum", "_compile_vectorized_unary_gradient")):
-        a = f"if isinstance(expr, {kind}):" in src(cg.node) and f"return {fac}(expr, variables)" in src(cg.node)
-        b = f"if isinstance(expr, {kind}):" in s and f"grad_fn = {fac}(expr, variables)" in s and "if m == 1:" in s
-        rep.pin('compile_jacobian fast paths', "R03.6", f"{kind}", a and b, f"compile_gradient and compile_jacobian (m == 1) both dispatch {kind} to {fac}" if a and b else f"{kind} is not dispatched to {fac} by both compile_gradient and compile_jacobian", loc=cg.loc, detail="same-factory")
+        def dispatches(fn):
+            """fn calls the factory on an expression that an enclosing / preceding isinstance test showed to be <kind>"""
+            for c in calls(fn.node):
+                if dotted(c.func) == fac and c.args:
+                    subj_ = src(c.args[0])
+                    for t_, pol in dominating_guards(c):
+                        if pol and isinstance(t_, ast.Call) and dotted(t_.func) == "isinstance" and src(t_.args[0]) == subj_ and kind in src(t_.args[1]):
+                            return True
+                        if pol and isinstance(t_, ast.BoolOp) and any(isinstance(x, ast.Call) and dotted(x.func) == "isinstance" and src(x.args[0]) == subj_ and kind in src(x.args[1]) for x in t_.values):
+                            return True
+            return False
+
+        a, b = dispatches(cg), dispatches(cj)
+        uses_other = [c for f_ in (cg, cj) for c in calls(f_.node) if (dotted(c.func) or "").startswith("_compile_vectorized") and dotted(c.func) != fac and any(pol and kind in src(t_) and "isinstance" in src(t_) for t_, pol in dominating_guards(c))]
+        if a and b:
+            rep.ob("R03.6", kind, True, f"compile_gradient and compile_jacobian both dispatch {kind} to {fac}", loc=cg.loc, detail="same-factory")
+        elif uses_other:
+            rep.ob("R03.6", kind, False, f"{kind} is dispatched to {dotted(uses_other[0].func)} instead of {fac}: gradient and single-row Jacobian of one expression come from different closures", loc=f"{cg.module.rel}:{uses_other[0].lineno}", detail="same-factory", robust=True)
+        else:
+            rep.pin('compile_jacobian fast paths', "R03.6", f"{kind}", False, f"{kind} is not dispatched to {fac} by both compile_gradient and compile_jacobian", loc=(cg if not a else cj).loc, detail="same-factory")
     ce = prog.cls("CompiledExpression")
     g = ce.methods.get("__init__")
     ok = g is not None and "self._gradient_fn = compile_gradient(expr, variables)" in src(g.node)
